@@ -167,3 +167,13 @@ Definition csslex_ok (c : Z * bytes * Z * Z * bytes * Z * Z * Z) : bool :=
   else
     match run_name t with Ok (o, l) => (st =? 0) && zlist_eqb o name && lx_eqb l c1 p1 r1 | x => st =? status_of x end.
 Definition check_csslex := mismatches csslex_ok.
+
+From V Require Import C16.Globstar.
+(* resolver.globstarToEscapedRegexp: (glob, status, pattern, hadWildcard) *)
+Definition globstar_ok (c : bytes * Z * bytes * bool) : bool :=
+  let '(g, st, pat, had) := c in
+  match globstarToEscapedRegexp g with
+  | Ok (p, h) => (st =? 0) && zlist_eqb p pat && Bool.eqb h had
+  | x => st =? status_of x
+  end.
+Definition check_globstar := mismatches globstar_ok.
